@@ -190,6 +190,17 @@ def make_cases(ctx):
                                 role, sid, v2[0], v2[1]), dict(
                                 role=role, sid=sid, ver=v2, key="rsa",
                                 group="secp256r1", feat="resume")
+                            if role == "tl_client":
+                                # the tlslite client is not pinned to the
+                                # version: it offers everything up to 1.3
+                                # and lands on the peer's version, with
+                                # tickets and with session IDs
+                                for tk in (True, False):
+                                    yield "resumewide-%04x-%d%d-%d" % (
+                                        sid, v2[0], v2[1], tk), dict(
+                                        role=role, sid=sid, ver=v2,
+                                        key="rsa", group="secp256r1",
+                                        feat="resume_wide", tickets=tk)
             # client authentication with every client key type
             for ck in ("ecdsa", "ed25519", "ed448", "ecdsa384", "rsapss"):
                 sid, _ = rng.choice(mine)
@@ -288,7 +299,7 @@ def run_case(ctx, cid, P):
     su = suites.TABLE[sid]
     k, group = P["key"], P["group"]
     hrr = feat in ("hrr", "resume_hrr")
-    resume = feat in ("resume", "resume_hrr")
+    resume = feat in ("resume", "resume_hrr", "resume_wide")
     tkw = {}
     if group:
         tkw["eccCurves"] = [group]
@@ -305,6 +316,8 @@ def run_case(ctx, cid, P):
         o_alpn = ["http/1.1", "h2"]
     ckey = (P.get("ckey") or "rsa") if feat == "cauth" else None
     ts_ = suites.suite_settings(su, ver, **tkw)
+    if feat == "resume_wide":
+        ts_.minVersion, ts_.maxVersion = (3, 0), (3, 4)
     link = net.Link()
     key = {"role": role, "ver": pair.VNAME[ver], "feat": feat,
            "kx": su.kx, "keytype": k}
@@ -315,6 +328,8 @@ def run_case(ctx, cid, P):
     tickets = rng.random() < 0.5
     if feat == "resume_hrr":
         tickets = True
+    if "tickets" in P:
+        tickets = P["tickets"]
     if resume and role == "tl_server" and tickets:
         ts_.ticketKeys = [bytes(range(32))]
     octx = None
